@@ -24,3 +24,14 @@ FUNCTIONS = ["process_data (xfrm gzip/xz/zstd/bzip2 adapters, via harness/C15)",
              "xfrm istream precache / xfrm_get_buffered_data (via harness/C15)"]
 TRUSTED = ["codec library contracts of harness/C15/c15_env.h (zlib, liblzma, libzstd, libbz2: documented interface only)"]
 ASSUMPTIONS = []
+
+# mixed sparse dialects in one PAX header (lead, round 4; found by a seeding
+# sub-agent on the unchanged tree: dangling sparse_last after GNU.sparse.map)
+HARNESSES.append(dict(name="pax_sparse_mix", file="pax_sparse_mix.c",
+                      label="bounded(4 concrete record sequences of <= 5 lines)",
+                      timeout=2400, unwind=28, solver="cadical",
+                      flags=["--memory-leak-check", "--no-malloc-may-fail"], defines={"__NO_CTYPE": None},
+                      nochecks=["--conversion-check"],
+                      cases=[dict(id="seq%d" % i, defines={"CASE": i, "__NO_CTYPE": None}, tier="quick")
+                             for i in range(4)]))
+FUNCTIONS.append("read_pax_header with the real sparse handlers (mixed 0.0 / 0.1 records)")
